@@ -1,12 +1,13 @@
 import RpmVerif.Model.Getters
 import RpmVerif.Model.Compression
 import RpmVerif.Gen.FileDigestLen
+import RpmVerif.Model.Compression
 /-!
 # L3: metadata accessors of `PackageMetadata` (src/rpm/package.rs)
 
 Every accessor is a composition of the typed getters; error classes are the getters' (`notfound`,
 `wrongtype`) plus `index` (InvalidTagIndex), `enum` (InvalidTagValueEnumVariant),
-`unsupported` (UnsupportedDigestAlgorithm), `compressor` (UnknownCompressorType).
+`unsupported` (UnsupportedDigestAlgorithm), `unknown-compressor` (UnknownCompressorType).
 -/
 namespace RpmVerif.Acc
 open RpmVerif.Hdr RpmVerif.Gen
